@@ -18,7 +18,7 @@ def _run(pid, prop, tier, seed, coop_cases, free_cases, rule, assumptions):
     # systematic: every schedule with at most `preempt` preemptions, depth-first by prefix replay, per scenario / shape; the counters say
     # for which of them the tree was exhausted and for which it was cut at the budget
     pre = 2 if tier == "quick" else 3
-    resd = vlib.run_resumable(cbin, ["--prop", prop, "--mode", "dfs", "--seed", str(seed), "--cases", str(4000 if tier == "quick" else 1500000), "--preempt", str(pre)], 17 if pid == "C12" else 8,
+    resd = vlib.run_resumable(cbin, ["--prop", prop, "--mode", "dfs", "--seed", str(seed), "--cases", str(4000 if tier == "quick" else 500000), "--preempt", str(pre)], 17 if pid == "C12" else 8,
                               timeout=400 if tier == "quick" else 7200, work=work, tag="d")
     cd, dd, sd, std_ = vlib.collect_runs(v, resd)
     distinct |= dd
